@@ -94,7 +94,7 @@ func runCheck(c *Checker, f func(*Checker), dir string) (code int) {
 		}
 	}()
 	archs := []string{"amd64"}
-	if c.Tier == "thorough" && thoroughArch[c.Prop] {
+	if c.Tier == "thorough" {
 		archs = append(archs, "386")
 	}
 	for _, a := range archs {
